@@ -1,6 +1,6 @@
 (* Corr/C05.v — correspondence runner for the chunked upload loop *)
 From Coq Require Import List ZArith NArith Bool Arith.
-From Verif Require Import Base.StrX Model.C05_Upload.
+From Verif Require Import Base.StrX Model.C05_Upload Model.C05_Chunk.
 Import ListNotations.
 Open Scope Z_scope.
 
@@ -9,7 +9,8 @@ Open Scope Z_scope.
 Inductive case :=
 | mkCase (c_stream : bytes) (c_cap : nat) (c_held : bytes) (c_script : list sact)
          (c_declared : option bytes) (c_dsize : Z) (c_ok : bool) (c_err : nat) (c_log : list (Z * Z))
-| mkLayout (stream : bytes) (declared : option bytes) (dsize : Z) (ok : bool) (stored : bool).
+| mkLayout (stream : bytes) (declared : option bytes) (dsize : Z) (ok : bool) (stored : bool)
+| mkChunk (host_chunk minsize len first : Z).   (* a registry announcing OCI-Chunk-Min-Length: length of the first PATCH *)
 
 Definition err_code (o : outcome) : nat :=
   match o with EMismatchOffsets => 1 | EDigest => 2 | ESize => 3 | OutOfFuel => 9 | _ => 0 end%nat.
@@ -28,6 +29,7 @@ Definition check (c : case) : bool :=
       let '(r, st) := layout_put declared dsize stream [] in
       let mok := match r with LOk _ _ => true | _ => false end in
       Bool.eqb mok ok && Bool.eqb (existsb (fun p => beq (fst p) stream) st) stored
+  | mkChunk hc m len first => (first =? first_chunk hc 1048576 1073741824 m len)%Z   (* defaultBlobChunk, defaultBlobChunkLimit *)
   end.
 
 Fixpoint mismatches_from (i : nat) (cs : list case) : list nat :=
